@@ -9,6 +9,7 @@ package verifapi
 import (
 	"encoding/json"
 	"fmt"
+	"net"
 	"os"
 	"strings"
 	"testing"
@@ -213,4 +214,19 @@ func NondetByteRange(name string, lo, hi byte) byte {
 	Assume(lo <= b)
 	Assume(b <= hi)
 	return b
+}
+
+// NondetPeer returns the textual "ip:port" form of a peer address with nondeterministic octets
+// (IPv4 or IPv6) together with the octets. In the engine the text is an opaque marker that the
+// net package's parsers map back to the symbolic octets.
+func NondetPeer(name string, v6 bool) (string, []byte) {
+	n := 4
+	if v6 {
+		n = 16
+	}
+	octets := NondetBytes(name, n)
+	if v6 {
+		return "[" + net.IP(octets).String() + "]:4711", octets
+	}
+	return net.IP(octets).String() + ":4711", octets
 }
